@@ -9,6 +9,8 @@ rac:    hand-written programs with a known number of absolute references assembl
 """
 import z3
 from contracts.common import *  # noqa
+from contracts import structure
+from contracts.structure import *  # noqa
 from contracts import common, deferred_c, insn
 from contracts.deferred_c import *  # noqa
 from contracts.symbols_c import unit_define  # noqa
@@ -115,6 +117,8 @@ def units(tier):
     for name, fn, kw in deferred_c.all_units():
         if name.startswith("poly-wait") or name.startswith("poly[") and ("x-x" in name or "x-y" in name or name.startswith("poly[sub") or "x+n" in name or "n+x" in name):
             us.append((name, fn, kw))
+    # whole programs: the statement holds wherever a statement stands (repeat body, included / linked file, any block) - contracts/structure.py
+    us += structure.units()
     return us
 
 
@@ -130,6 +134,9 @@ def canary(eng):
 
 
 def replay(o, tree):
+    r_ = structure.replay(o, tree)
+    if r_ is not None:
+        return r_
     from contracts import c01, c04
     cfg = o.get("cfg") or {}
     if cfg.get("kind") == "rm":
